@@ -28,14 +28,18 @@ def sized2 (a b : CVal) : Except Err (Nat × Nat × Nat) :=
   | .bv x w, .bv y w' => if w = w' ∧ 0 < w then .ok (w, x, y) else .error .sizeMismatch
   | _, _ => .error (.crash "TypeError")
 
-def bin (f : Nat → Nat → Nat → R) (a b : CVal) : Except Err CVal := do
-  let (w, x, y) ← sized2 a b
-  let r ← f w x y
-  pure (.bv r w)
+def bin (f : Nat → Nat → Nat → R) (a b : CVal) : Except Err CVal :=
+  match sized2 a b with
+  | .error e => .error e
+  | .ok (w, x, y) =>
+    match f w x y with
+    | .error e => .error e
+    | .ok r => .ok (.bv r w)
 
-def cmp (f : Nat → Nat → Nat → Bool) (a b : CVal) : Except Err CVal := do
-  let (w, x, y) ← sized2 a b
-  pure (.bool (f w x y))
+def cmp (f : Nat → Nat → Nat → Bool) (a b : CVal) : Except Err CVal :=
+  match sized2 a b with
+  | .error e => .error e
+  | .ok (w, x, y) => .ok (.bool (f w x y))
 
 def reduceL (f : CVal → CVal → Except Err CVal) : List CVal → Except Err CVal
   | [] => .error (.crash "reduce of empty sequence")
